@@ -6,240 +6,145 @@ From Imdl Require Import Model.Bencode Model.Float53 Model.ByteSize Generated.Ge
 Import ListNotations.
 Local Open Scope N_scope.
 
-(* ================================================================ numeric core *)
-
-Lemma to53_exp a b m e : 0 < a -> 0 < b -> to53 a b = (m, e) ->
-  (Z.of_N (N.log2 a) - Z.of_N (N.log2 b) - 53 <= e <= Z.of_N (N.log2 a) - Z.of_N (N.log2 b) - 52)%Z.
-Proof.
-  intros Ha Hb. unfold to53. cbv zeta.
-  destruct (scaled a b _) as [a0 b0].
-  destruct (a0 <? b0 * 2 ^ 52); destruct (scaled a b _) as [a1 b1]; intros H; inversion H; subst; lia.
-Qed.
-
-Lemma shl_pos x s : 0 < x -> 0 < shl x s.
-Proof. intros H. unfold shl. destruct (0 <=? s)%Z; [|exact H].
-  apply N.mul_pos_pos; [exact H|]. apply pow2_pos. Qed.
-
-Lemma to53_err a b m e : 0 < a -> 0 < b -> to53 a b = (m, e) ->
-  let a1 := shl a (- e) in let b1 := shl b e in
-  0 < b1 /\ 2 * (m * b1) <= 2 * a1 + b1 /\ 2 * a1 <= 2 * (m * b1) + b1.
-Proof.
-  intros Ha Hb. unfold to53. cbv zeta.
-  destruct (scaled a b (Z.of_N (N.log2 a) - Z.of_N (N.log2 b) - 52)) as [a0 b0].
-  remember (if a0 <? b0 * 2 ^ 52 then _ else _) as e' eqn:Ee'. clear Ee'.
-  unfold scaled. intros H. inversion H as [[Hm He]]. clear H. subst e'.
-  assert (Hb1 : 0 < shl b e) by (apply shl_pos; exact Hb).
-  split; [exact Hb1|]. apply rne_div_err. exact Hb1.
-Qed.
+(* ================================================================ numeric core: parsing *)
 
 Lemma pow10_pos f : 0 < 10 ^ f.
 Proof. apply N.neq_0_lt_0, N.pow_nonzero. lia. Qed.
 
-Lemma parse_val_pos n f sh : 0 < n ->
-  parse_val n f sh = let '(m, e) := to53 n (10 ^ f) in f64_to_u64 m (e + Z.of_N sh).
-Proof. intros Hn. unfold parse_val. destruct (N.eqb_spec n 0); [lia|reflexivity]. Qed.
+Lemma U128_MAX_eq : U128_MAX = 340282366920938463463374607431768211455.
+Proof. reflexivity. Qed.
+Lemma U64_MAX_eq : U64_MAX = 18446744073709551615.
+Proof. reflexivity. Qed.
 
-(** fractions: exact truncation below 2^46 when the fractional part of the product is 0 or
-    between 1% and 99% (always the case with at most two decimals) *)
-Theorem parse_val_fraction n f sh :
-  0 < n ->
-  let D := 10 ^ f in let A := n * 2 ^ sh in let R := A mod D in
-  A < D * 2 ^ 46 ->
-  (R = 0 \/ (D <= 100 * R /\ 100 * R <= 99 * D)) ->
-  parse_val n f sh = A / D.
+Lemma chk128_ok x : x <= U128_MAX -> chk128 x = Some x.
+Proof. intros H. unfold chk128. destruct (N.leb_spec x U128_MAX); [reflexivity|lia]. Qed.
+
+(** all characters are decimal digits *)
+Definition all_dec (l : text) : Prop := Forall (fun c => 48 <= c <= 57) l.
+
+(** value of a digit string, most significant digit first *)
+Fixpoint tval (l : text) : N :=
+  match l with [] => 0 | c :: r => (c - 48) * 10 ^ N.of_nat (length r) + tval r end.
+
+Lemma digit_val_dec c : 48 <= c <= 57 -> digit_val c = Some (c - 48).
 Proof.
-  intros Hn D A R HA HR. rewrite parse_val_pos by exact Hn. change (10 ^ f) with D.
-  assert (HD : 0 < D) by apply pow10_pos.
-  destruct (to53 n D) as [m e] eqn:T.
-  pose proof (to53_exp n D m e Hn HD T) as [_ He].
-  pose proof (to53_err n D m e Hn HD T) as Herr.
-  assert (HA0 : 0 < A) by (unfold A; apply N.mul_pos_pos; [lia|apply pow2_pos]).
-  assert (HlogA : N.log2 A = N.log2 n + sh).
-  { unfold A. rewrite N.log2_mul_pow2 by lia. lia. }
-  assert (HlA : N.log2 A <= N.log2 D + 46).
-  { destruct (log2_bounds A HA0) as [L1 _]. destruct (log2_bounds D HD) as [_ L2].
-    assert (Hlt : 2 ^ N.log2 A < 2 ^ (N.log2 D + 1 + 46)).
-    { rewrite N.pow_add_r. nia. }
-    apply N.pow_lt_mono_r_iff in Hlt; lia. }
-  set (E := (e + Z.of_N sh)%Z).
-  assert (HE : (E <= -6)%Z) by (unfold E; lia).
-  assert (He0 : (e <= -6)%Z) by (unfold E in HE; lia).
-  cbv zeta in Herr. unfold shl in Herr.
-  replace (0 <=? - e)%Z with true in Herr by (symmetry; apply Z.leb_le; lia).
-  replace (0 <=? e)%Z with false in Herr by (symmetry; apply Z.leb_gt; lia).
-  destruct Herr as (_ & Hlo & Hhi).
-  set (s := Z.to_N (- E)).
-  assert (Hs : 6 <= s) by (unfold s; lia).
-  assert (Hsplit : Z.to_N (- e) = sh + s) by (unfold s, E; lia).
-  rewrite Hsplit, N.pow_add_r in Hlo, Hhi.
-  set (S := 2 ^ s) in *.
-  assert (HS : 64 <= S).
-  { unfold S. change 64 with (2 ^ 6). apply N.pow_le_mono_r; lia. }
-  fold A in Hlo, Hhi.
-  assert (HAS : n * (2 ^ sh * S) = A * S) by (unfold A; lia).
-  rewrite HAS in Hlo, Hhi.
-  unfold f64_to_u64, trunc. fold E. replace (0 <=? E)%Z with false by (symmetry; apply Z.leb_gt; lia).
-  fold s. fold S.
-  pose proof (N.div_mod A D ltac:(lia)) as EA. fold R in EA. set (F := A / D) in *.
-  pose proof (N.mod_lt A D ltac:(lia)) as HRlt. fold R in HRlt.
-  assert (Hdiv : m / S = F).
-  { symmetry. apply N.div_unique with (r := m - F * S).
-    - assert (Hm : m < (F + 1) * S); [|lia].
-      destruct HR as [HR0|[HR1 HR2]].
-      + assert (2 * (m * D) <= 2 * (F * D * S) + D) by nia.
-        assert (2 * (m * D) < 2 * ((F + 1) * S * D)) by nia. nia.
-      + assert (Hx : 2 * (m * D) < 2 * ((F + 1) * S * D)); [|nia].
-        assert (100 * (2 * (m * D)) < 100 * (2 * ((F + 1) * S * D))); [|lia]. nia.
-    - assert (Hm : F * S <= m); [|lia].
-      destruct HR as [HR0|[HR1 HR2]].
-      + assert (2 * (F * S * D) <= 2 * (m * D) + D) by nia.
-        assert (F * S * D < (m + 1) * D) by nia. nia.
-      + assert (Hx : 2 * (F * S * D) <= 2 * (m * D)); [|nia].
-        assert (100 * (2 * (F * S * D)) <= 100 * (2 * (m * D))); [|lia]. nia. }
-  rewrite Hdiv. apply N.min_l.
-  assert (F < 2 ^ 46) by (apply N.div_lt_upper_bound; lia).
-  assert (2 ^ 46 < U64_MAX) by (vm_compute; reflexivity). lia.
+  intros H. unfold digit_val.
+  destruct (N.leb_spec 48 c); destruct (N.leb_spec c 57); cbn [andb]; try lia; reflexivity.
 Qed.
 
-(** integers: exact whenever the integer has at most 53 significant bits and the product is
-    a u64 (in particular whenever the product is below 2^53) *)
-Theorem parse_val_integer_wide n sh :
-  0 < n -> n < 2 ^ 53 -> n * 2 ^ sh < 2 ^ 64 -> parse_val n 0 sh = n * 2 ^ sh.
+Lemma pow10_succ_len {A} (c : A) (r : list A) :
+  10 ^ N.of_nat (length (c :: r)) = 10 * 10 ^ N.of_nat (length r).
+Proof. cbn [length]. rewrite Nat2N.inj_succ, N.pow_succ_r'. reflexivity. Qed.
+
+Lemma tval_lt l : all_dec l -> tval l < 10 ^ N.of_nat (length l).
 Proof.
-  intros Hn Hn53 HA. rewrite parse_val_pos by exact Hn. change (10 ^ 0) with 1.
-  set (l := N.log2 n).
-  assert (Hl : l <= 52).
-  { assert (Hlg : N.log2 n < 53) by (apply N.log2_lt_pow2; assumption). fold l in Hlg. lia. }
-  destruct (log2_bounds n Hn) as [L1 L2]. fold l in L1, L2.
-  unfold to53. cbv zeta. change (N.log2 1) with 0. fold l.
-  set (e0 := (Z.of_N l - Z.of_N 0 - 52)%Z).
-  assert (He0 : (e0 <= 0)%Z) by (unfold e0; lia).
-  assert (Hb : forall e, (e <= 0)%Z -> shl 1 e = 1).
-  { intros e He. unfold shl. destruct (Z.leb_spec 0 e); [|reflexivity].
-    replace e with 0%Z by lia. reflexivity. }
-  assert (Ha : shl n (- e0) = n * 2 ^ (52 - l)).
-  { unfold shl. replace (0 <=? - e0)%Z with true by (symmetry; apply Z.leb_le; lia).
-    f_equal. f_equal. unfold e0. lia. }
-  unfold scaled. rewrite (Hb e0 He0), Ha.
-  assert (Hnorm : 1 * 2 ^ 52 <= n * 2 ^ (52 - l)).
-  { replace (1 * 2 ^ 52) with (2 ^ l * 2 ^ (52 - l)).
-    - apply N.mul_le_mono_r. exact L1.
-    - rewrite <- N.pow_add_r. rewrite N.mul_1_l. f_equal. lia. }
-  replace (n * 2 ^ (52 - l) <? 1 * 2 ^ 52) with false by (symmetry; apply N.ltb_ge; exact Hnorm).
-  rewrite (Hb e0 He0), Ha, rne_div_1.
-  unfold f64_to_u64, trunc.
-  set (E := (e0 + Z.of_N sh)%Z).
-  assert (Hres : (if (0 <=? E)%Z then n * 2 ^ (52 - l) * 2 ^ Z.to_N E
-                  else n * 2 ^ (52 - l) / 2 ^ Z.to_N (- E)) = n * 2 ^ sh).
-  { destruct (Z.leb_spec 0 E).
-    - rewrite <- N.mul_assoc, <- N.pow_add_r. f_equal. f_equal. unfold E, e0 in *. lia.
-    - replace (52 - l) with (sh + Z.to_N (- E)) by (unfold E, e0 in *; lia).
-      rewrite N.pow_add_r, N.mul_assoc. apply N.div_mul. apply N.pow_nonzero. lia. }
-  rewrite Hres. apply N.min_l. unfold U64_MAX. lia.
+  intros H. induction H as [|c r Hc Hr IH].
+  - cbn. lia.
+  - rewrite pow10_succ_len. cbn [tval]. set (P := 10 ^ N.of_nat (length r)) in *. nia.
 Qed.
 
-Theorem parse_val_integer n sh :
-  0 < n -> n * 2 ^ sh < 2 ^ 53 -> parse_val n 0 sh = n * 2 ^ sh.
+(** the plain (unsaturated) digit loop *)
+Definition dstep (acc c : N) : N := acc * 10 + (c - 48).
+
+Lemma dstep_fold l : forall acc, fold_left dstep l acc = acc * 10 ^ N.of_nat (length l) + tval l.
 Proof.
-  intros Hn HA. pose proof (pow2_pos sh) as Hp.
-  assert (2 ^ 53 < 2 ^ 64) by (vm_compute; reflexivity).
-  apply parse_val_integer_wide; [exact Hn|nia|lia].
+  induction l as [|c r IH]; intros acc.
+  - cbn. lia.
+  - cbn [fold_left]. rewrite IH. rewrite pow10_succ_len. cbn [tval]. unfold dstep. lia.
 Qed.
 
-(* ---- the quotient is normalised: 2^52 <= a1 / b1 < 2^53 ---- *)
-Lemma shl_eq x z : shl x z = x * 2 ^ Z.to_N z.
+Lemma of_uint_acc_fold u : forall p, N.pos (Pos.of_uint_acc u p) = fold_left dstep (uint_bytes u) (N.pos p).
 Proof.
-  unfold shl. destruct (Z.leb_spec 0 z); [reflexivity|].
-  replace (Z.to_N z) with 0 by lia. rewrite N.mul_1_r. reflexivity.
+  induction u as [|u IH|u IH|u IH|u IH|u IH|u IH|u IH|u IH|u IH|u IH]; intros p;
+    cbn [Pos.of_uint_acc uint_bytes fold_left]; [reflexivity|..];
+    rewrite IH; f_equal; unfold dstep; lia.
 Qed.
 
-Lemma to53_norm a b m e : 0 < a -> 0 < b -> to53 a b = (m, e) ->
-  2 ^ 52 * shl b e <= shl a (- e) /\ shl a (- e) < 2 ^ 53 * shl b e.
+Lemma of_uint_fold u : N.of_uint u = fold_left dstep (uint_bytes u) 0.
 Proof.
-  intros Ha Hb. unfold to53. cbv zeta. unfold scaled.
-  set (la := N.log2 a). set (lb := N.log2 b).
-  set (e0 := (Z.of_N la - Z.of_N lb - 52)%Z).
-  destruct (log2_bounds a Ha) as [A1 A2]. destruct (log2_bounds b Hb) as [B1 B2]. fold la in A1, A2. fold lb in B1, B2.
-  rewrite N.add_1_r, N.pow_succ_r' in A2, B2.
-  set (PA := 2 ^ la) in *. set (PB := 2 ^ lb) in *.
-  assert (K0 : PA * 2 ^ Z.to_N (- e0) = PB * 2 ^ 52 * 2 ^ Z.to_N e0).
-  { unfold PA, PB. rewrite <- !N.pow_add_r. f_equal. unfold e0. lia. }
-  pose proof (pow2_pos (Z.to_N (- e0))) as HP0. pose proof (pow2_pos (Z.to_N e0)) as HQ0.
-  assert (U0 : shl a (- e0) < 2 ^ 53 * shl b e0).
-  { rewrite !shl_eq. change (2 ^ 53) with (2 * 2 ^ 52).
-    set (P0 := 2 ^ Z.to_N (- e0)) in *. set (Q0 := 2 ^ Z.to_N e0) in *. set (C := 2 ^ 52) in *.
-    assert (a * P0 < 2 * PA * P0) by nia.
-    assert (2 * (PB * C * Q0) <= 2 * C * (b * Q0)) by nia. nia. }
-  assert (L0 : 2 ^ 52 * shl b e0 < 2 * shl a (- e0)).
-  { rewrite !shl_eq.
-    set (P0 := 2 ^ Z.to_N (- e0)) in *. set (Q0 := 2 ^ Z.to_N e0) in *. set (C := 2 ^ 52) in *.
-    assert (2 * (PA * P0) <= 2 * (a * P0)) by nia.
-    assert (C * (b * Q0) < 2 * (PB * C * Q0)) by nia. nia. }
-  destruct (N.ltb_spec (shl a (- e0)) (shl b e0 * 2 ^ 52)) as [Hlt|Hge]; intros H; inversion H; subst e; clear H.
-  - (* one more bit *)
-    rewrite !shl_eq in *.
-    destruct (Z.leb_spec e0 0) as [Hneg|Hpos].
-    + replace (Z.to_N (e0 - 1)) with 0 by lia. replace (Z.to_N e0) with 0 in * by lia.
-      replace (Z.to_N (- (e0 - 1))) with (Z.to_N (- e0) + 1) by lia.
-      rewrite N.pow_add_r. change (2 ^ 1) with 2. change (2 ^ 0) with 1 in *.
-      set (P0 := 2 ^ Z.to_N (- e0)) in *. change (2 ^ 53) with (2 * 2 ^ 52). set (C := 2 ^ 52) in *. nia.
-    + replace (Z.to_N (- (e0 - 1))) with 0 by lia. replace (Z.to_N (- e0)) with 0 in * by lia.
-      replace (Z.to_N e0) with (Z.to_N (e0 - 1) + 1) in * by lia.
-      rewrite N.pow_add_r in *. change (2 ^ 1) with 2 in *. change (2 ^ 0) with 1 in *.
-      set (Q1 := 2 ^ Z.to_N (e0 - 1)) in *. change (2 ^ 53) with (2 * 2 ^ 52). set (C := 2 ^ 52) in *. nia.
-  - split; [lia|exact U0].
+  unfold N.of_uint.
+  induction u as [|u IH|u IH|u IH|u IH|u IH|u IH|u IH|u IH|u IH|u IH];
+    cbn [Pos.of_uint uint_bytes fold_left]; [reflexivity|exact IH|..];
+    rewrite of_uint_acc_fold; reflexivity.
 Qed.
 
-(** fractions whose product is a whole number below 2^53: exact *)
-Theorem parse_val_integral n f sh :
-  0 < n ->
-  let D := 10 ^ f in let A := n * 2 ^ sh in
-  A mod D = 0 -> A / D < 2 ^ 53 -> parse_val n f sh = A / D.
+(** the digit string of [u] denotes [N.of_uint u] *)
+Lemma tval_uint u : tval (uint_bytes u) = N.of_uint u.
+Proof. rewrite of_uint_fold, dstep_fold. lia. Qed.
+
+Lemma length_uint_bytes u : length (uint_bytes u) = nb_digits u.
+Proof. induction u; cbn; try rewrite IHu; reflexivity. Qed.
+
+(** whole part: the saturating loop computes the saturated value *)
+Lemma whole_step_sat acc c : 48 <= c <= 57 ->
+  whole_step (sat128 acc) c = sat128 (dstep acc c).
 Proof.
-  intros Hn D A HR HP. rewrite parse_val_pos by exact Hn. change (10 ^ f) with D.
-  assert (HD : 0 < D) by apply pow10_pos.
-  destruct (to53 n D) as [m e] eqn:T.
-  destruct (to53_norm n D m e Hn HD T) as [N1 N2].
-  assert (Hm : m = rne_div (shl n (- e)) (shl D e)).
-  { unfold to53 in T. cbv zeta in T. unfold scaled in T.
-    destruct (_ <? _) in T; inversion T; reflexivity. }
-  rewrite !shl_eq in *.
-  set (P := A / D) in *.
-  assert (EA : n * 2 ^ sh = P * D).
-  { fold A. pose proof (N.div_mod A D ltac:(lia)) as E. rewrite HR in E. fold P in E. lia. }
-  set (E := (e + Z.of_N sh)%Z).
-  pose proof (pow2_pos sh) as Hsh.
-  unfold f64_to_u64, trunc. fold E.
-  assert (HE : (E <= 0)%Z).
-  { destruct (Z.leb_spec E 0) as [|Hpos]; [assumption|exfalso].
-    destruct (Z.leb_spec e 0) as [He|He].
-    - replace (Z.to_N e) with 0 in * by lia. change (2 ^ 0) with 1 in *.
-      assert (Es : sh = Z.to_N (- e) + Z.to_N E) by (unfold E in *; lia).
-      rewrite Es, N.pow_add_r in EA.
-      assert (2 <= 2 ^ Z.to_N E).
-      { change 2 with (2 ^ 1) at 1. apply N.pow_le_mono_r; lia. }
-      set (X := 2 ^ Z.to_N (- e)) in *. set (Y := 2 ^ Z.to_N E) in *.
-      change (2 ^ 53) with (2 * 2 ^ 52) in *. set (C := 2 ^ 52) in *. nia.
-    - replace (Z.to_N (- e)) with 0 in * by lia. change (2 ^ 0) with 1 in *.
-      assert (2 <= 2 ^ Z.to_N e).
-      { change 2 with (2 ^ 1) at 1. apply N.pow_le_mono_r; lia. }
-      set (Y := 2 ^ Z.to_N e) in *. set (S := 2 ^ sh) in *.
-      change (2 ^ 53) with (2 * 2 ^ 52) in *. set (C := 2 ^ 52) in *. nia. }
-  assert (He : (e <= 0)%Z) by (unfold E in HE; lia).
-  replace (Z.to_N e) with 0 in * by lia. change (2 ^ 0) with 1 in *. rewrite N.mul_1_r in *.
-  set (s := Z.to_N (- E)).
-  assert (Es : Z.to_N (- e) = sh + s) by (unfold s, E in *; lia).
-  rewrite Es, N.pow_add_r, N.mul_assoc, EA in Hm.
-  assert (Hm' : m = P * 2 ^ s).
-  { rewrite Hm. rewrite rne_div_exact; [|exact HD|].
-    - replace (P * D * 2 ^ s) with (P * 2 ^ s * D) by lia. apply N.div_mul. lia.
-    - replace (P * D * 2 ^ s) with (P * 2 ^ s * D) by lia. apply N.mod_mul. lia. }
-  assert (Hres : (if (0 <=? E)%Z then m * 2 ^ Z.to_N E else m / 2 ^ s) = P).
-  { rewrite Hm'. destruct (Z.leb_spec 0 E).
-    - replace (Z.to_N E) with 0 by lia. replace s with 0 by (unfold s; lia). cbn. lia.
-    - apply N.div_mul. apply N.pow_nonzero. lia. }
-  rewrite Hres. apply N.min_l.
-  assert (2 ^ 53 < U64_MAX) by (vm_compute; reflexivity). lia.
+  intros Hc. unfold whole_step, dstep. rewrite (digit_val_dec c Hc).
+  change GenBytes.parse_base with 10. unfold sat128. rewrite U128_MAX_eq. lia.
+Qed.
+
+Lemma whole_fold l : all_dec l -> forall acc,
+  fold_left whole_step l (sat128 acc) = sat128 (fold_left dstep l acc).
+Proof.
+  intros H. induction H as [|c r Hc Hr IH]; intros acc; [reflexivity|].
+  cbn [fold_left]. rewrite whole_step_sat by exact Hc. apply IH.
+Qed.
+
+Lemma whole_fold_value l : all_dec l -> fold_left whole_step l 0 = sat128 (tval l).
+Proof.
+  intros H. change 0 with (sat128 0) at 1. rewrite (whole_fold l H 0), dstep_fold. f_equal; lia.
+Qed.
+
+(** fraction part: the loop from the last digit computes floor(multiple * 0.d1…dk), and no
+    operator overflows for any multiplier that fits in a u64 *)
+Lemma frac_fold m l : m <= 2 ^ 64 -> all_dec l ->
+  fold_right (frac_step m) (Some 0) l = Some (m * tval l / 10 ^ N.of_nat (length l)).
+Proof.
+  intros Hm H. induction H as [|c r Hc Hr IH].
+  - cbn. rewrite N.mul_0_r. reflexivity.
+  - cbn [fold_right]. rewrite IH. unfold frac_step. rewrite (digit_val_dec c Hc).
+    rewrite pow10_succ_len. cbn [tval].
+    set (P := 10 ^ N.of_nat (length r)). set (d := c - 48). set (a := m * tval r / P).
+    assert (HP : 0 < P) by apply pow10_pos.
+    assert (Hd : d <= 9) by (unfold d; lia).
+    assert (Ha : a <= m).
+    { unfold a. apply N.div_le_upper_bound; [lia|]. pose proof (tval_lt r Hr) as Ht. fold P in Ht. nia. }
+    assert (H64 : 2 ^ 64 = 18446744073709551616) by reflexivity.
+    rewrite chk128_ok by (rewrite U128_MAX_eq; nia).
+    rewrite chk128_ok by (rewrite U128_MAX_eq; nia).
+    change GenBytes.parse_base with 10. f_equal.
+    replace (m * (d * P + tval r)) with (d * m * P + m * tval r) by lia.
+    rewrite (N.mul_comm 10 P), <- N.div_div by lia.
+    rewrite N.div_add_l by lia. reflexivity.
+Qed.
+
+(** digits.split_once('.') *)
+Lemma split_dot_app w f : all_dec w -> split_dot (w ++ 46 :: f) = (w, f).
+Proof.
+  intros H. induction H as [|c r Hc Hr IH]; cbn [app split_dot].
+  - rewrite N.eqb_refl. reflexivity.
+  - destruct (N.eqb_spec c 46); [lia|]. rewrite IH. reflexivity.
+Qed.
+
+Lemma split_dot_nodot w : all_dec w -> split_dot w = (w, []).
+Proof.
+  intros H. induction H as [|c r Hc Hr IH]; cbn [split_dot]; [reflexivity|].
+  destruct (N.eqb_spec c 46); [lia|]. rewrite IH. reflexivity.
+Qed.
+
+(** the saturating combination followed by the conversion to u64 is one clamp at 2^64-1 *)
+Lemma sat_combine W m P : 1 <= m ->
+  to_u64_sat (sat128 (sat128 (sat128 W * m) + P)) = N.min (W * m + P) U64_MAX.
+Proof.
+  intros Hm. unfold to_u64_sat, sat128. rewrite U64_MAX_eq, U128_MAX_eq.
+  set (M := 340282366920938463463374607431768211455).
+  destruct (N.le_gt_cases W M) as [HW|HW].
+  - rewrite (N.min_l W M HW). set (X := W * m).
+    destruct (N.leb_spec (N.min (N.min X M + P) M) 18446744073709551615); unfold M in *; lia.
+  - rewrite (N.min_r W M) by lia.
+    assert (M <= M * m) by nia. assert (M < W * m) by nia.
+    set (X := W * m) in *. set (Y := M * m) in *.
+    destruct (N.leb_spec (N.min (N.min Y M + P) M) 18446744073709551615); unfold M in *; lia.
 Qed.
 
 (* ================================================================ display *)
@@ -250,22 +155,35 @@ Proof. apply N.neq_0_lt_0, N.pow_nonzero. lia. Qed.
 Lemma pow1024_succ i : 1024 * 1024 ^ i = 1024 ^ (i + 1).
 Proof. rewrite N.add_1_r, N.pow_succ_r'. reflexivity. Qed.
 
-Lemma unit_loop_S fu v i :
-  unit_loop (S fu) v i = if 1024 ^ (i + 1) <=? v then unit_loop fu v (i + 1) else Some i.
+Lemma unit_loop_S fu v i u :
+  unit_loop (S fu) v i u =
+  if 1024 ^ (i + 1) <=? v then unit_loop fu v (i + 1) (sat128 (u * 1024)) else Some (i, u).
 Proof. cbn [unit_loop]. rewrite pow1024_succ. reflexivity. Qed.
 
-Lemma unit_loop_spec fu : forall v i,
-  v < 1024 ^ (i + 1 + N.of_nat fu) -> (i = 0 \/ 1024 ^ i <= v) ->
-  exists j, unit_loop (S fu) v i = Some j /\ i <= j /\ (j = 0 \/ 1024 ^ j <= v) /\ v < 1024 ^ (j + 1).
+Lemma pow1024_le_128 i : i <= 12 -> 1024 ^ i <= U128_MAX.
 Proof.
-  induction fu as [|fu IH]; intros v i Hlt Hge; rewrite unit_loop_S.
+  intros Hi. assert (H : 1024 ^ i <= 1024 ^ 12) by (apply N.pow_le_mono_r; lia).
+  assert (1024 ^ 12 <= U128_MAX) by (vm_compute; discriminate). lia.
+Qed.
+
+(** the loop leaves with the largest unit not above v, and with unit = 1024^i (the saturating
+    multiplication never saturates) *)
+Lemma unit_loop_spec fu : forall v i,
+  v < 1024 ^ (i + 1 + N.of_nat fu) -> i + 1 + N.of_nat fu <= 12 -> (i = 0 \/ 1024 ^ i <= v) ->
+  exists j, unit_loop (S fu) v i (1024 ^ i) = Some (j, 1024 ^ j) /\ i <= j /\ (j = 0 \/ 1024 ^ j <= v) /\ v < 1024 ^ (j + 1).
+Proof.
+  induction fu as [|fu IH]; intros v i Hlt Hb Hge; rewrite unit_loop_S.
   - rewrite N.add_0_r in Hlt. exists i.
     destruct (N.leb_spec (1024 ^ (i + 1)) v) as [Hle|Hgt]; [lia|].
     repeat split; [lia|exact Hge|exact Hlt].
   - destruct (N.leb_spec (1024 ^ (i + 1)) v) as [Hle|Hgt].
-    + destruct (IH v (i + 1)) as (j & Hj & Hij & Hjv & Hvj).
+    + assert (Hu : sat128 (1024 ^ i * 1024) = 1024 ^ (i + 1)).
+      { rewrite N.mul_comm, pow1024_succ. unfold sat128. apply N.min_l. apply pow1024_le_128. lia. }
+      rewrite Hu.
+      destruct (IH v (i + 1)) as (j & Hj & Hij & Hjv & Hvj).
       * rewrite Nat2N.inj_succ in Hlt.
         replace (i + 1 + 1 + N.of_nat fu) with (i + 1 + N.succ (N.of_nat fu)) by lia. exact Hlt.
+      * rewrite Nat2N.inj_succ in Hb. lia.
       * right. exact Hle.
       * exists j. repeat split; [exact Hj|lia|exact Hjv|exact Hvj].
     + exists i. repeat split; [lia|exact Hge|exact Hgt].
@@ -273,20 +191,22 @@ Qed.
 
 (** the unit index the loop leaves with *)
 Definition unit_of (n : N) : N :=
-  match unit_loop 8 (round53 n) 0 with Some i => i | None => 0 end.
+  match unit_loop 8 (round53 n) 0 1 with Some (i, _) => i | None => 0 end.
 
 Lemma round53_u64 n : n < 2 ^ 64 -> round53 n <= 2 ^ 64.
 Proof. intros H. apply round53_le_pow. lia. Qed.
 
 Lemma unit_of_spec n : n < 2 ^ 64 ->
   let v := round53 n in let i := unit_of n in
-  unit_loop 8 v 0 = Some i /\ i <= 6 /\ (i = 0 \/ 1024 ^ i <= v) /\ v < 1024 ^ (i + 1).
+  unit_loop 8 v 0 1 = Some (i, 1024 ^ i) /\ i <= 6 /\ (i = 0 \/ 1024 ^ i <= v) /\ v < 1024 ^ (i + 1).
 Proof.
   intros Hn v i. pose proof (round53_u64 n Hn) as Hv. fold v in Hv.
   destruct (unit_loop_spec 7 v 0) as (j & Hj & _ & Hjv & Hvj).
   - assert (2 ^ 64 < 1024 ^ (0 + 1 + N.of_nat 7)) by (vm_compute; reflexivity). lia.
+  - vm_compute. discriminate.
   - left. reflexivity.
-  - assert (Hi : i = j) by (unfold i, unit_of; fold v; rewrite Hj; reflexivity).
+  - change (1024 ^ 0) with 1 in Hj.
+    assert (Hi : i = j) by (unfold i, unit_of; fold v; rewrite Hj; reflexivity).
     rewrite Hi. repeat split; [exact Hj| |exact Hjv|exact Hvj].
     destruct Hjv as [->|Hjv]; [lia|].
     assert (Hp : 1024 ^ j < 1024 ^ 7).
@@ -385,12 +305,52 @@ Proof.
     rewrite <- !app_assoc. reflexivity.
 Qed.
 
-(** what [bs_display] returns, for every u64 *)
+(* ---- the two decimals, computed from the integer ---- *)
+
+Lemma even_mod2 q : N.even q = (q mod 2 =? 0).
+Proof.
+  pose proof (N.div_mod q 2 ltac:(lia)) as E. pose proof (N.mod_lt q 2 ltac:(lia)) as L.
+  rewrite E at 1. rewrite N.add_comm, N.even_add_mul_2.
+  assert (Hc : q mod 2 = 0 \/ q mod 2 = 1) by lia. destruct Hc as [->| ->]; reflexivity.
+Qed.
+
+(** the three-way match of the code is round-half-even division, and none of its u128
+    operators can overflow or divide by zero for a u64 value and a unit up to 2^64 *)
+Lemma hundredths_spec n u : n < 2 ^ 64 -> 0 < u -> u <= 2 ^ 64 ->
+  hundredths n u = Some (rne_div (100 * n) u).
+Proof.
+  intros Hn Hu0 Hu. unfold hundredths. change GenBytes.disp_scale with 100.
+  assert (H64 : 2 ^ 64 = 18446744073709551616) by reflexivity.
+  rewrite chk128_ok by (rewrite U128_MAX_eq; lia).
+  destruct (N.eqb_spec u 0) as [|_]; [lia|].
+  set (a := 100 * n). pose proof (N.mod_lt a u ltac:(lia)) as Hr.
+  rewrite chk128_ok by (rewrite U128_MAX_eq; lia).
+  assert (Hq : a / u <= a) by (apply N.div_le_upper_bound; [lia|nia]).
+  unfold rne_div. cbv zeta.
+  set (q := a / u) in *. set (r := a mod u) in *.
+  assert (Ha : a < 100 * 2 ^ 64) by (unfold a; lia). clearbody q r a.
+  destruct (N.compare_spec (2 * r) u) as [He|Hl|Hg].
+  - destruct (N.ltb_spec (2 * r) u); [lia|]. destruct (N.ltb_spec u (2 * r)); [lia|].
+    pose proof (N.mod_lt q 2 ltac:(lia)) as Hm.
+    rewrite chk128_ok by (rewrite U128_MAX_eq; lia).
+    rewrite even_mod2. destruct (N.eqb_spec (q mod 2) 0) as [E0|E0]; cbv iota; f_equal; lia.
+  - destruct (N.ltb_spec (2 * r) u); [reflexivity|lia].
+  - destruct (N.ltb_spec (2 * r) u); [lia|]. destruct (N.ltb_spec u (2 * r)); [|lia].
+    apply chk128_ok. rewrite U128_MAX_eq. lia.
+Qed.
+
+(** hundredths of the unit printed for n: the TRUE value 100 n / 1024^i, ties to even *)
+Definition hund (n : N) : N := rne_div (100 * n) (1024 ^ unit_of n).
+
+(** what [bs_display] returns, for every u64 (in particular: never a panic) *)
 Theorem display_eq n : n < 2 ^ 64 ->
-  bs_display n = Some (two_dec (hundredths (round53 n) (unit_of n)) ++ 32 :: word_of (unit_of n) n).
+  bs_display n = Some (two_dec (hund n) ++ 32 :: word_of (unit_of n) n).
 Proof.
   intros Hn. destruct (unit_of_spec n Hn) as (Hl & Hi & _ & _).
-  unfold bs_display. rewrite Hl, (unit_word_ok _ _ Hi), trim_fmt2. reflexivity.
+  unfold bs_display. rewrite Hl, (unit_word_ok _ _ Hi).
+  rewrite hundredths_spec; [rewrite trim_fmt2; reflexivity|exact Hn|apply pow1024_pos|].
+  assert (H : 1024 ^ unit_of n <= 1024 ^ 6) by (apply N.pow_le_mono_r; lia).
+  assert (1024 ^ 6 <= 2 ^ 64) by (vm_compute; discriminate). lia.
 Qed.
 
 (** the unit is the largest power of 1024 not exceeding the value as a double *)
@@ -404,35 +364,11 @@ Proof.
   - intros Hv. destruct Hge as [Hge|Hge]; [exact Hge|]. pose proof (pow1024_pos i). lia.
 Qed.
 
-(** printed hundredths are within half a hundredth of the double's value in that unit *)
+(** printed hundredths are within half a hundredth of the unit of the TRUE value, for every n *)
 Theorem display_error n :
-  let v := round53 n in let u := 1024 ^ unit_of n in let h := hundredths v (unit_of n) in
-  2 * (h * u) <= 2 * (100 * v) + u /\ 2 * (100 * v) <= 2 * (h * u) + u.
-Proof. cbv zeta. apply rne_div_err. apply pow1024_pos. Qed.
-
-(** hence within half a hundredth of the TRUE value up to 2^53 *)
-Theorem display_error_true n : n <= 2 ^ 53 ->
-  let u := 1024 ^ unit_of n in let h := hundredths (round53 n) (unit_of n) in
+  let u := 1024 ^ unit_of n in let h := hund n in
   2 * (h * u) <= 2 * (100 * n) + u /\ 2 * (100 * n) <= 2 * (h * u) + u.
-Proof. intros Hn. pose proof (display_error n) as H. rewrite (round53_small n Hn) in *. exact H. Qed.
-
-(** above 2^53 the conversion to double adds at most one part in 2^53 *)
-Lemma round53_rel_err n : 2 ^ 53 * round53 n <= 2 ^ 53 * n + n /\ 2 ^ 53 * n <= 2 ^ 53 * round53 n + n.
-Proof.
-  destruct (N.le_gt_cases n (2 ^ 53)) as [Hs|Hb].
-  - rewrite round53_small by exact Hs. lia.
-  - unfold round53. destruct (N.ltb_spec n (2 ^ 53)) as [Hlt|_]; [lia|]. cbv zeta.
-    assert (Hn : 0 < n) by lia.
-    destruct (log2_bounds n Hn) as [L1 _].
-    assert (HL : 53 <= N.log2 n) by (apply N.log2_le_pow2; lia).
-    set (s := N.log2 n - 52) in *.
-    assert (E1 : 2 ^ N.log2 n = 2 ^ 52 * 2 ^ s).
-    { rewrite <- N.pow_add_r. f_equal. unfold s. lia. }
-    pose proof (pow2_pos s) as Hs.
-    destruct (rne_div_err n (2 ^ s) Hs) as [R1 R2].
-    set (S := 2 ^ s) in *. set (r := rne_div n S) in *.
-    change (2 ^ 53) with (2 * 2 ^ 52). nia.
-Qed.
+Proof. cbv zeta. apply rne_div_err. apply pow1024_pos. Qed.
 
 (** the singular word appears exactly for one byte *)
 Theorem display_byte_iff n : n < 2 ^ 64 ->
@@ -593,27 +529,82 @@ Proof. apply units_lookup. Qed.
 Lemma spells_starts s sh : spells s sh -> starts_other is_numch s.
 Proof. intros H. apply lower_starts. exact (units_start _ _ H). Qed.
 
-(** a well-formed number followed by a unit in any case parses to the float-path value *)
-Theorem parse_text ui uf s sh : num_ok ui uf = true -> spells s sh ->
-  bs_parse (num_text ui uf ++ s) = BsOk (parse_val (num_value ui uf) (num_frac uf) sh).
+(** no multiplier of the table exceeds 2^60 (so it fits the u64 the code declares it as) *)
+Definition row_shift (row : text * N) : bool := snd row <=? 60.
+
+Lemma units_shift k sh : In (k, sh) GenBytes.units -> sh <= 60.
+Proof.
+  assert (H : forallb row_shift GenBytes.units = true) by (vm_compute; reflexivity).
+  rewrite forallb_forall in H. intros Hin. specialize (H _ Hin).
+  unfold row_shift in H. cbn [snd] in H. lia.
+Qed.
+
+Lemma uint_bytes_dec u : all_dec (uint_bytes u).
+Proof. apply uint_bytes_digits. Qed.
+
+(** the integer evaluation of an accepted digit string: the exact product, truncated to whole
+    bytes, clamped at 2^64-1; no operator panics *)
+Lemma parse_count_text ui uf sh : sh <= 64 ->
+  parse_count (num_text ui uf) (2 ^ sh) =
+  Some (N.min (num_value ui uf * 2 ^ sh / 10 ^ num_frac uf) U64_MAX).
+Proof.
+  intros Hsh. set (m := 2 ^ sh).
+  assert (Hm1 : 1 <= m) by (pose proof (pow2_pos sh); fold m in H; lia).
+  assert (Hm2 : m <= 2 ^ 64) by (apply N.pow_le_mono_r; lia).
+  unfold parse_count. destruct uf as [u|]; cbn [num_text num_value num_frac].
+  - rewrite split_dot_app by apply uint_bytes_dec.
+    rewrite whole_fold_value by apply uint_bytes_dec.
+    rewrite frac_fold by (try apply uint_bytes_dec; exact Hm2).
+    rewrite sat_combine by exact Hm1.
+    rewrite !tval_uint, length_uint_bytes. f_equal. f_equal.
+    set (D := 10 ^ N.of_nat (nb_digits u)).
+    assert (HD : 0 < D) by apply pow10_pos.
+    replace ((N.of_uint ui * D + N.of_uint u) * m) with (N.of_uint ui * m * D + m * N.of_uint u) by lia.
+    rewrite N.div_add_l by lia. reflexivity.
+  - rewrite split_dot_nodot by apply uint_bytes_dec.
+    rewrite whole_fold_value by apply uint_bytes_dec.
+    cbn [fold_right]. rewrite sat_combine by exact Hm1.
+    rewrite tval_uint. change (10 ^ 0) with 1. rewrite N.div_1_r, N.add_0_r. reflexivity.
+Qed.
+
+(** THE parsing theorem: every well-formed number I.F (any number of digits, either part
+    possibly empty but not both, leading zeros) followed by any spelling and letter case of a
+    unit parses to floor((I * 10^f + F) * 1024^k / 10^f), clamped at 2^64 - 1 *)
+Theorem parse_exact ui uf s sh : num_ok ui uf = true -> spells s sh ->
+  bs_parse (num_text ui uf ++ s) =
+  BsOk (N.min (num_value ui uf * 2 ^ sh / 10 ^ num_frac uf) (2 ^ 64 - 1)).
 Proof.
   intros Hok Hs. unfold bs_parse.
   destruct (split_while is_numch (num_text ui uf) s (num_text_numch ui uf) (spells_starts s sh Hs)) as [E1 E2].
-  rewrite E1, E2, (parse_number_text ui uf Hok), (spells_lookup s sh Hs). reflexivity.
+  rewrite E1, E2, (parse_number_text ui uf Hok), (spells_lookup s sh Hs).
+  rewrite parse_count_text; [reflexivity|]. pose proof (units_shift _ _ Hs). lia.
 Qed.
 
 (** and nothing else parses: every accepted text is such a number followed by such a unit *)
 Theorem parse_accepts_only t v : bs_parse t = BsOk v ->
   exists ui uf s sh, t = num_text ui uf ++ s /\ num_ok ui uf = true /\ spells s sh /\
-                     v = parse_val (num_value ui uf) (num_frac uf) sh.
+                     v = N.min (num_value ui uf * 2 ^ sh / 10 ^ num_frac uf) (2 ^ 64 - 1).
 Proof.
-  unfold bs_parse. destruct (parse_number (take_while is_numch t)) as [[n f]|] eqn:P; [|discriminate].
-  destruct (lookup_unit (skip_while is_numch t)) as [sh|] eqn:L; [|discriminate].
-  intros H; inversion H; subst.
-  destruct (parse_number_shape _ _ _ P) as (ui & uf & E & Hok & -> & ->).
+  intros H. pose proof H as H0. unfold bs_parse in H.
+  destruct (parse_number (take_while is_numch t)) as [[n f]|] eqn:P; [|discriminate].
+  destruct (lookup_unit (skip_while is_numch t)) as [sh|] eqn:L; [|discriminate]. clear H.
+  destruct (parse_number_shape _ _ _ P) as (ui & uf & E & Hok & _ & _).
+  assert (Hs : spells (skip_while is_numch t) sh) by (apply lookup_some; exact L).
+  assert (Et : t = num_text ui uf ++ skip_while is_numch t) by (rewrite <- E; symmetry; apply take_skip_while).
   exists ui, uf, (skip_while is_numch t), sh. repeat split; try assumption.
-  - rewrite <- E. symmetry. apply take_skip_while.
-  - apply lookup_some. exact L.
+  rewrite Et in H0 at 1. rewrite (parse_exact ui uf _ sh Hok Hs) in H0. inversion H0. reflexivity.
+Qed.
+
+(** parsing never panics: whatever the text, the result is a size or one of the two errors *)
+Theorem parse_total t : bs_parse t <> BsPanic.
+Proof.
+  intros H. pose proof H as H0. unfold bs_parse in H.
+  destruct (parse_number (take_while is_numch t)) as [[n f]|] eqn:P; [|discriminate].
+  destruct (lookup_unit (skip_while is_numch t)) as [sh|] eqn:L; [|discriminate]. clear H.
+  destruct (parse_number_shape _ _ _ P) as (ui & uf & E & Hok & _ & _).
+  assert (Hs : spells (skip_while is_numch t) sh) by (apply lookup_some; exact L).
+  assert (Et : t = num_text ui uf ++ skip_while is_numch t) by (rewrite <- E; symmetry; apply take_skip_while).
+  rewrite Et in H0 at 1. rewrite (parse_exact ui uf _ sh Hok Hs) in H0. discriminate.
 Qed.
 
 (** rejection, stated directly: unknown suffix *)
@@ -657,134 +648,55 @@ Qed.
 
 (* ================================================================ headline statements *)
 
-Lemma parse_val_zero f sh : parse_val 0 f sh = 0.
-Proof. reflexivity. Qed.
-
 (** integers (any number of leading zeros) with every spelling and case of every unit:
-    exact whenever the integer has at most 53 significant bits and the product is a u64 *)
-Theorem parse_integer_wide ui s sh :
-  is_nil ui = false -> spells s sh -> N.of_uint ui < 2 ^ 53 -> N.of_uint ui * 2 ^ sh < 2 ^ 64 ->
+    exact whenever the product is a u64 *)
+Theorem parse_integer_exact ui s sh :
+  is_nil ui = false -> spells s sh -> N.of_uint ui * 2 ^ sh < 2 ^ 64 ->
   bs_parse (uint_bytes ui ++ s) = BsOk (N.of_uint ui * 2 ^ sh).
 Proof.
-  intros Hn Hs H53 Hlt. change (uint_bytes ui) with (num_text ui None).
-  rewrite (parse_text ui None s sh) by (cbn [num_ok]; try rewrite Hn; trivial).
-  cbn [num_value num_frac]. f_equal.
-  destruct (N.eq_dec (N.of_uint ui) 0) as [E|E].
-  - rewrite E. reflexivity.
-  - apply parse_val_integer_wide; [lia|exact H53|exact Hlt].
+  intros Hn Hs Hlt. change (uint_bytes ui) with (num_text ui None).
+  rewrite (parse_exact ui None s sh) by (cbn [num_ok]; try rewrite Hn; trivial).
+  cbn [num_value num_frac]. change (10 ^ 0) with 1. rewrite N.div_1_r. f_equal. lia.
 Qed.
 
-(** in particular whenever the product fits in 53 bits *)
-Theorem parse_integer_exact ui s sh :
+(** the property's own wording: whenever the product fits in 53 bits *)
+Corollary parse_integer_53 ui s sh :
   is_nil ui = false -> spells s sh -> N.of_uint ui * 2 ^ sh < 2 ^ 53 ->
   bs_parse (uint_bytes ui ++ s) = BsOk (N.of_uint ui * 2 ^ sh).
 Proof.
-  intros Hn Hs Hlt. pose proof (pow2_pos sh) as Hp.
-  assert (2 ^ 53 < 2 ^ 64) by (vm_compute; reflexivity).
-  apply parse_integer_wide; [exact Hn|exact Hs|nia|lia].
+  intros Hn Hs Hlt. assert (2 ^ 53 < 2 ^ 64) by (vm_compute; reflexivity).
+  apply parse_integer_exact; [exact Hn|exact Hs|lia].
 Qed.
 
 Corollary parse_canonical_integer n s sh :
-  spells s sh -> n * 2 ^ sh < 2 ^ 53 -> bs_parse (dec n ++ s) = BsOk (n * 2 ^ sh).
+  spells s sh -> n * 2 ^ sh < 2 ^ 64 -> bs_parse (dec n ++ s) = BsOk (n * 2 ^ sh).
 Proof.
   intros Hs Hlt. unfold dec. rewrite <- (DecimalN.Unsigned.of_to n) at 2.
   apply parse_integer_exact; [|exact Hs|rewrite DecimalN.Unsigned.of_to; exact Hlt].
   pose proof (to_uint_canon n) as Hc. destruct (N.to_uint n); [discriminate|reflexivity..].
 Qed.
 
-(** decimal fractions whose product is a whole number below 2^53 (1.5pib, 0.25gib, …) *)
-Theorem parse_fraction_integral ui u s sh :
-  num_ok ui (Some u) = true -> spells s sh ->
-  let D := 10 ^ N.of_nat (nb_digits u) in
-  let A := (N.of_uint ui * D + N.of_uint u) * 2 ^ sh in
-  A mod D = 0 -> A / D < 2 ^ 53 ->
-  bs_parse (uint_bytes ui ++ 46 :: uint_bytes u ++ s) = BsOk (A / D).
-Proof.
-  intros Hok Hs D A HR HP.
-  replace (uint_bytes ui ++ 46 :: uint_bytes u ++ s) with (num_text ui (Some u) ++ s)
-    by (cbn [num_text]; rewrite <- app_assoc; reflexivity).
-  rewrite (parse_text ui (Some u) s sh Hok Hs). cbn [num_value num_frac]. f_equal.
-  fold D. set (n := N.of_uint ui * D + N.of_uint u) in *.
-  destruct (N.eq_dec n 0) as [E|E].
-  - unfold A. rewrite E. cbn [N.mul].
-    rewrite N.div_0_l by (pose proof (pow10_pos (N.of_nat (nb_digits u))) as HD; fold D in HD; lia). reflexivity.
-  - apply parse_val_integral; [lia|exact HR|exact HP].
-Qed.
-
-(** decimal fractions: I.F with any digits, product below 2^46, fractional part of the
-    product zero or between 1% and 99% *)
+(** decimal fractions I.F with ANY number of decimals: the exact product A / D truncated to
+    whole bytes, A = (I * 10^f + F) * 1024^k, D = 10^f, whenever it is a u64 *)
 Theorem parse_fraction_exact ui u s sh :
   num_ok ui (Some u) = true -> spells s sh ->
   let D := 10 ^ N.of_nat (nb_digits u) in
   let A := (N.of_uint ui * D + N.of_uint u) * 2 ^ sh in
-  let R := A mod D in
-  A < D * 2 ^ 46 -> (R = 0 \/ (D <= 100 * R /\ 100 * R <= 99 * D)) ->
+  A / D < 2 ^ 64 ->
   bs_parse (uint_bytes ui ++ 46 :: uint_bytes u ++ s) = BsOk (A / D).
 Proof.
-  intros Hok Hs D A R HA HR.
+  intros Hok Hs D A HP.
   replace (uint_bytes ui ++ 46 :: uint_bytes u ++ s) with (num_text ui (Some u) ++ s)
     by (cbn [num_text]; rewrite <- app_assoc; reflexivity).
-  rewrite (parse_text ui (Some u) s sh Hok Hs). cbn [num_value num_frac]. f_equal.
-  fold D. set (n := N.of_uint ui * D + N.of_uint u) in *.
-  destruct (N.eq_dec n 0) as [E|E].
-  - unfold A. rewrite E. cbn [N.mul]. rewrite N.div_0_l by (pose proof (pow10_pos (N.of_nat (nb_digits u))); fold D in H; lia). reflexivity.
-  - apply parse_val_fraction; [lia|exact HA|exact HR].
+  rewrite (parse_exact ui (Some u) s sh Hok Hs). cbn [num_value num_frac]. fold D. fold A.
+  f_equal. lia.
 Qed.
 
-(** with at most two decimals the side condition on the fractional part always holds *)
-Theorem parse_two_decimals ui u s sh :
-  num_ok ui (Some u) = true -> spells s sh -> (nb_digits u <= 2)%nat ->
-  let D := 10 ^ N.of_nat (nb_digits u) in
-  let A := (N.of_uint ui * D + N.of_uint u) * 2 ^ sh in
-  A < D * 2 ^ 46 ->
-  bs_parse (uint_bytes ui ++ 46 :: uint_bytes u ++ s) = BsOk (A / D).
-Proof.
-  intros Hok Hs Hf D A HA. apply parse_fraction_exact; try assumption. fold D. fold A.
-  assert (HD : D = 1 \/ D = 10 \/ D = 100).
-  { unfold D. destruct (nb_digits u) as [|[|[|k]]]; [left|right; left|right; right|lia]; reflexivity. }
-  pose proof (N.mod_lt A D) as HR.
-  destruct HD as [E|[E|E]]; rewrite E in *; specialize (HR ltac:(lia)); lia.
-Qed.
-
-(** the residual class of fractional parsing, and the theorem outside it: every fraction with
-    at most two decimals whose product fits in 53 bits is the exact truncated product, unless
-    the product is not a whole number and is at least 2^46 *)
-Definition known_parse (A D : N) : Prop := D * 2 ^ 46 <= A /\ A mod D <> 0.
-
-Theorem parse_two_decimals_unless_known ui u s sh :
-  num_ok ui (Some u) = true -> spells s sh -> (nb_digits u <= 2)%nat ->
-  let D := 10 ^ N.of_nat (nb_digits u) in
-  let A := (N.of_uint ui * D + N.of_uint u) * 2 ^ sh in
-  A / D < 2 ^ 53 -> ~ known_parse A D ->
-  bs_parse (uint_bytes ui ++ 46 :: uint_bytes u ++ s) = BsOk (A / D).
-Proof.
-  intros Hok Hs Hf D A HP Hk.
-  destruct (N.eq_dec (A mod D) 0) as [HR|HR].
-  - apply parse_fraction_integral; assumption.
-  - apply parse_two_decimals; try assumption. fold D. fold A.
-    destruct (N.lt_ge_cases A (D * 2 ^ 46)) as [Hlt|Hge]; [exact Hlt|].
-    exfalso. apply Hk. split; assumption.
-Qed.
-
-(** the two residual classes of the float path (DESIGN section C16), by witness *)
-Definition txt_4503599627370496_75 : text :=
-  [52;53;48;51;53;57;57;54;50;55;51;55;48;52;57;54;46;55;53].
-
-Lemma parse_fraction_residual :
-  exists ui u, uint_bytes ui ++ 46 :: uint_bytes u = txt_4503599627370496_75 /\
-    let D := 10 ^ N.of_nat (nb_digits u) in let A := (N.of_uint ui * D + N.of_uint u) * 2 ^ 0 in
-    (nb_digits u <= 2)%nat /\ known_parse A D /\ A / D < 2 ^ 53 /\
-    bs_parse (uint_bytes ui ++ 46 :: uint_bytes u ++ []) = BsOk (A / D + 1).
-Proof.
-  exists (N.to_uint 4503599627370496), (D7 (D5 Nil)). unfold known_parse. vm_compute.
-  split; [reflexivity|]. split; [apply le_n|]. split; [split; discriminate|]. split; reflexivity.
-Qed.
-
-Lemma display_residual :
-  exists n, 2 ^ 53 < n /\ n < 2 ^ 64 /\
-    let u := 1024 ^ unit_of n in let h := hundredths (round53 n) (unit_of n) in
-    2 * (h * u) + u < 2 * (100 * n).
-Proof. exists (2 ^ 53 + 2 ^ 47 + 1). vm_compute. repeat split; reflexivity. Qed.
+(** beyond the u64 range the result is 2^64 - 1 (as `f64 as u64` saturated before the repair) *)
+Theorem parse_saturates ui uf s sh : num_ok ui uf = true -> spells s sh ->
+  2 ^ 64 <= num_value ui uf * 2 ^ sh / 10 ^ num_frac uf ->
+  bs_parse (num_text ui uf ++ s) = BsOk (2 ^ 64 - 1).
+Proof. intros Hok Hs Hge. rewrite (parse_exact ui uf s sh Hok Hs). f_equal. lia. Qed.
 
 (* ================================================================ the printed numeral denotes h / 100 *)
 
@@ -852,15 +764,3 @@ Proof.
       cbv iota. f_equal. lia.
 Qed.
 
-(** for every u64, against the TRUE value: half a hundredth of the unit plus the relative
-    2^-53 of the conversion to double (scaled by 2^53 to stay in integers) *)
-Theorem display_error_all n :
-  let u := 1024 ^ unit_of n in let h := hundredths (round53 n) (unit_of n) in
-  2 ^ 53 * (2 * (h * u)) <= 2 ^ 53 * (2 * (100 * n) + u) + 200 * n /\
-  2 ^ 53 * (2 * (100 * n)) <= 2 ^ 53 * (2 * (h * u) + u) + 200 * n.
-Proof.
-  cbv zeta. destruct (display_error n) as [E1 E2]. destruct (round53_rel_err n) as [R1 R2].
-  cbv zeta in E1, E2.
-  set (u := 1024 ^ unit_of n) in *. set (h := hundredths (round53 n) (unit_of n)) in *.
-  set (v := round53 n) in *. set (C := 2 ^ 53) in *. nia.
-Qed.
